@@ -296,6 +296,10 @@ func GenUniverse(r *rand.Rand, o UOpts) *Universe {
 	if o.OddAT {
 		// artifact types with characters that have a meaning of their own in a query string
 		ats = []string{"application/vnd.example.sbom.v1+json", "application/x.a&b=%63#d", ""}
+		if o.Tag != "" && o.Tag[len(o.Tag)-1]%2 == 0 {
+			// types that differ only in case, and one with a parameter: the filter compares the strings as they are
+			ats = []string{"application/vnd.example.sbom.v1+json", "application/vnd.example.SBOM.v1+json", "Application/X.p;v=1"}
+		}
 	}
 	var arts []*Man
 	for i := 0; i < o.NArtifact; i++ {
